@@ -36,7 +36,7 @@ func init() {
 		Run:    runC16,
 		Finish: func(c *Ctx) { c16Close() },
 		MinimaFor: func(t string) map[string]int {
-			return map[string]int{"mem-streams": tierN(t, 800, 14000), "mem-messages-checked": tierN(t, 5000, 90000), "h2c-exchanges": tierN(t, 60, 1000), "h2c-rounds": tierN(t, 400, 8000)}
+			return map[string]int{"mem-streams": tierN(t, 800, 14000), "mem-messages-checked": tierN(t, 5000, 90000), "mem-zero-length-payload-reframed": tierN(t, 8, 150), "h2c-exchanges": tierN(t, 60, 1000), "h2c-rounds": tierN(t, 400, 8000)}
 		},
 	})
 }
@@ -50,6 +50,7 @@ type c16Case struct {
 	compS   []string
 	rounds  int
 	size    int
+	empty   bool // messages carry no marker either: zero-length payloads
 	shape   int // stServer, stClient, stBidi
 	method  *MethodInfo
 	cfg     *SvcConfig
@@ -58,7 +59,7 @@ type c16Case struct {
 }
 
 func (k *c16Case) String() string {
-	return fmt.Sprintf("%s->%s codec %s->%s comp %q->%v rounds=%d size=%d shape=%s", k.form, k.target, k.codecC, k.codecS, k.compC, k.compS, k.rounds, k.size, streamName(k.shape))
+	return fmt.Sprintf("%s->%s codec %s->%s comp %q->%v rounds=%d size=%d empty=%v shape=%s", k.form, k.target, k.codecC, k.codecS, k.compC, k.compS, k.rounds, k.size, k.empty, streamName(k.shape))
 }
 
 func genC16(r *rand.Rand, h2cLeg bool) *c16Case {
@@ -85,7 +86,12 @@ func genC16(r *rand.Rand, h2cLeg bool) *c16Case {
 	if k.shape == stClient {
 		nresp = 1
 	}
+	// every fifth scenario sends messages with no field set: a zero-length payload behind the envelope
+	k.empty = k.size == 0 && chance(r, 60)
 	mk := func(i int, tag string) proto.Message {
+		if k.empty {
+			return newMsg(k.method.In())
+		}
 		m := sizedMessage(k.method.In(), k.size, false, r)
 		setMarker(m, fmt.Sprintf("%s%d", tag, i))
 		return m
@@ -197,7 +203,9 @@ func (h *c16Handler) ServeHTTP(w http.ResponseWriter, r *http.Request) {
 			return false
 		}
 		fl := byte(0)
-		if respComp != "" {
+		if respComp != "" && !k.empty {
+			// (empty-message scenarios send their frames uncompressed - the per-message flag allows it - so that the
+			// payload really is zero bytes long)
 			data, fl = compressWith(respComp, data), 1
 		}
 		if !started {
@@ -347,6 +355,9 @@ func c16InMemory(c *Ctx, i int, r *rand.Rand) {
 	rec.Finish()
 	c.Eval()
 	c.Count("mem-streams")
+	if k.empty && k.codecC == "proto" && k.codecS == "proto" && k.form.Protocol() != k.target {
+		c.Count("mem-zero-length-payload-reframed")
+	}
 	c.CountN("mem-messages-checked", int64(len(k.resps)+len(k.reqs)))
 	if k.rounds >= 2 {
 		c.Nontrivial("mem|" + k.String())
@@ -559,7 +570,7 @@ func c16Exchange(k *c16Case, id string, timeout time.Duration) exchangeResult {
 			if err := decodeMsg(k.codecC, payload, m); err != nil {
 				return err
 			}
-			if getMarker(m) != fmt.Sprintf("p%d", i) {
+			if !k.empty && getMarker(m) != fmt.Sprintf("p%d", i) {
 				return fmt.Errorf("response %d carries marker %q", i, getMarker(m))
 			}
 			return nil
